@@ -538,7 +538,7 @@ H("C15", "equipment", "c15_skeleton_path_all", unwind=100, timeout=600, bounds="
 H("C15", "equipment", "c15_material_paths_all", unwind=100, timeout=600, bounds="six material path builders, all codes 0..9999 x 0..9999, concrete material name: exact path text",
   encodes=["equipment::build_gear_material_path", "build_skin_material_path", "build_face_material_path", "build_hair_material_path", "build_ear_material_path", "build_tail_material_path"],
   stubs=FMT, cbmc_args=FS256)
-H("C05", "exd", "c05_page_filename_ids_below_100000", unwind=100, timeout=900, bounds="all page start ids 0..99999 x all 8 languages (symbolic), concrete sheet name: exact file name text",
+H("C05", "exd", "c05_page_filename_all_ids", unwind=100, timeout=900, bounds="all 2^32 page start ids x all 8 languages (symbolic), concrete sheet name: exact file name text",
   encodes=["exd::EXD::calculate_filename", "common::get_language_code"], stubs=FMT, cbmc_args=FS256)
 H("C05", "exd", "c05_page_filename_wide_ids", unwind=100, timeout=900, bounds="start ids 4294967295, 1000000000, 123456789 (concrete) x all 8 languages (symbolic)",
   encodes=["exd::EXD::calculate_filename", "common::get_language_code"], stubs=FMT, cbmc_args=FS256)
